@@ -4,9 +4,10 @@
     parametric algorithm of Model/Weigh.v (its binary64 instance is tied to the Go
     code bit for bit, and to this instance within 1e-9, by the correspondence run).
     Ring and pickers: naturals, no size bound. *)
-From Coq Require Import List ZArith NArith QArith Qminmax Permutation.
+From Coq Require Import List ZArith NArith QArith Qminmax Permutation Reals.
+From Flocq Require Import Core.Raux Core.Zaux IEEE754.Binary IEEE754.Bits.
 From Fabio Require Import Lib.Outcome Model.Weigh Model.Ring Model.Pick
-  Proofs.Weigh Proofs.Ring Proofs.Pick Proofs.Split.
+  Proofs.Weigh Proofs.Ring Proofs.Pick Proofs.Split Model.WeighF Proofs.WeighF.
 Import ListNotations.
 Local Open Scope nat_scope.
 
@@ -166,3 +167,91 @@ Theorem C04_route_split : forall order (l : list Q),
          /\ (n_fix l <> 0 -> Z.of_nat (occupancy (Some i) r) = slot_countQ w).
 Proof. exact route_ring_spec. Qed.
 Print Assumptions C04_route_split.
+
+(* ---- the resolution of 10 000 slots, for the whole ring ---- *)
+(* S - len < number of slots <= S + len, S = maxSlots = 10000, for every non-empty target list *)
+Theorem C04_slots_resolution_sum : forall l : list Q, l <> [] ->
+  (10000 - Z.of_nat (length l) < zsum (map slot_countQ (weighQ l)) <= 10000 + Z.of_nat (length l))%Z.
+Proof. exact slots_resolution_sum. Qed.
+Print Assumptions C04_slots_resolution_sum.
+
+(* hence the share of slots of target i is its weight up to (len + 1) / (S - len),
+   for every route with fewer than S targets (0.41% for 40 targets) *)
+Theorem C04_slots_share_bound : forall (l : list Q) i w, l <> [] -> (Z.of_nat (length l) < 10000)%Z ->
+  nth_error (weighQ l) i = Some w ->
+  let U := inject_Z (zsum (map slot_countQ (weighQ l))) in
+  let B := ((qn (length l) + 1) / (inject_Z 10000 - qn (length l)))%Q in
+  (0 < U)%Q /\ (- B <= inject_Z (slot_countQ w) / U - w)%Q /\ (inject_Z (slot_countQ w) / U - w <= B)%Q.
+Proof. exact slots_share_bound. Qed.
+Print Assumptions C04_slots_share_bound.
+
+(* ---- the crash-status shortcut evaluated by Check/C04.v is the model ---- *)
+(* for every vector of 64-bit slot counts (negative, wrapped sums included) and every arrangement *)
+Theorem C04_ring_status_is_model : forall counts sorted, Permutation sorted (indexed counts) ->
+  status_of (ring_of_counts sorted counts) = ring_status counts.
+Proof. exact ring_status_correct. Qed.
+Print Assumptions C04_ring_status_is_model.
+
+(* for every arithmetic instance (the binary64 one included) and every behaviour of the sort *)
+Theorem C04_route_status_is_model : forall (A : arith) order (fixed : list (num A)),
+  (forall s, Permutation (order s) s) ->
+  status_of (route_ring A order fixed) = route_status A fixed.
+Proof. exact route_status_correct. Qed.
+Print Assumptions C04_route_status_is_model.
+
+(* ---- the tie order of the unstable sort (pdqsort) is immaterial for every conclusion above:
+   C04_fill_counts and C04_route_split quantify over ALL permutations / all permutation-preserving
+   [order] functions; explicitly, two executions of the sort give rings of the same length in which
+   every target (and nil) has the same number of slots.  Shares, never-starved, never-picked, the hit
+   counts of a full round-robin cycle (C04_rr_cycle_exact) and the support of the random picker
+   (C04_rnd_support) are functions of these numbers only.  The order read from the real sort by the
+   harness is needed for the layout correspondence alone. ---- *)
+Theorem C04_fill_counts_any_tie_order : forall counts sorted1 sorted2,
+  Forall (fun n => 0 <= n)%Z counts -> (zsum counts <= 2^45)%Z ->
+  Permutation sorted1 (indexed counts) -> Permutation sorted2 (indexed counts) ->
+  exists r1 r2, ring_of_counts sorted1 counts = Ok r1 /\ ring_of_counts sorted2 counts = Ok r2
+    /\ length r1 = length r2 /\ forall t, occupancy t r1 = occupancy t r2.
+Proof. exact fill_counts_order_independent. Qed.
+Print Assumptions C04_fill_counts_any_tie_order.
+
+Theorem C04_route_split_any_tie_order : forall order1 order2 (l : list Q),
+  l <> [] -> (Z.of_nat (length l) <= 3000000000)%Z ->
+  (forall s, Permutation (order1 s) s) -> (forall s, Permutation (order2 s) s) ->
+  exists r1 r2, route_ring arithQ order1 l = Ok (weighQ l, r1)
+    /\ route_ring arithQ order2 l = Ok (weighQ l, r2)
+    /\ length r1 = length r2 /\ forall t, occupancy t r1 = occupancy t r2.
+Proof. exact route_split_order_independent. Qed.
+Print Assumptions C04_route_split_any_tie_order.
+
+(* ---- binary64 (the instance Go executes).  The ONLY theorem of this file that uses the real
+   numbers (Flocq's B2R) and therefore the four axioms of Coq's Reals library.  One theorem with four
+   clauses (a single assumption printout: bin/check's parser cannot separate consecutive axiom blocks).
+   The sane input domain [sane_fixed]: a FixedWeight is finite and either not positive (a dynamic
+   target) or within [2^-1000, 1].  The lower bound is necessary: 5e-324 lies in [0, 1] and crashes
+   (finding F-C04-1).
+   (a) on the domain every computed weight is finite and within [0, 1 + 2^-52];
+   (b) every slot count lies in [0, S];
+   (c) weighTargets neither panics nor loops, whatever the unstable sort does;
+   (d) conditional form for any input: finite weights in [0, 1 + 2^-52] => no crash. ---- *)
+Theorem C04_binary64_no_panic_on_domain :
+  (forall l : list f64, Forall sane_fixed l -> (Z.of_nat (length l) <= 2 ^ 53)%Z ->
+     forall w, In w (weigh arithF l) ->
+       is_finite 53 1024 w = true /\ (0 <= B2R 53 1024 w <= 1 + Raux.bpow Zaux.radix2 (-52))%R)
+  /\ (forall fixed : list f64, Forall sane_fixed fixed -> (Z.of_nat (length fixed) <= 3000000000)%Z ->
+       Forall (fun n => 0 <= n <= 10000)%Z (map (slot_count arithF) (weigh arithF fixed)))
+  /\ (forall (fixed : list f64) order,
+       Forall sane_fixed fixed -> (Z.of_nat (length fixed) <= 3000000000)%Z ->
+       (forall s, Permutation (order s) s) ->
+       status_of (route_ring arithF order fixed) = Ok tt)
+  /\ (forall (fixed : list f64) order,
+       (Z.of_nat (length fixed) <= 3000000000)%Z -> (forall s, Permutation (order s) s) ->
+       (forall w, In w (weigh arithF fixed) ->
+          is_finite 53 1024 w = true /\ (0 <= B2R 53 1024 w <= 1 + Raux.bpow Zaux.radix2 (-52))%R) ->
+       status_of (route_ring arithF order fixed) = Ok tt).
+Proof. exact binary64_on_domain_all. Qed.
+Print Assumptions C04_binary64_no_panic_on_domain.
+
+(* non-vacuity of the domain: 0.3 is a sane fixed weight, 0 a sane dynamic one *)
+Theorem C04_binary64_domain_nonvacuous :
+  sane_fixed (f64_of_bits 4599075939470750515) /\ sane_fixed (f64_of_bits 0).
+Proof. exact sane_fixed_nonvacuous. Qed.
